@@ -57,6 +57,13 @@ def inputs(tier):
             for bi, body in enumerate(FRAMED_BODIES):
                 data = head + b''.join(h + CRLF for h in hs) + CRLF + body
                 out.append(('framing:%d:%d:%d' % (ri, hi, bi), 'framing', data, None))
+    # requests with every shape of Proxy-Authorization (exercised with and without --basic-auth u:p)
+    for ri, line in enumerate((b'GET http://h/ HTTP/1.1\r\nHost: h\r\n', b'CONNECT h:443 HTTP/1.1\r\nHost: h:443\r\n',
+                               b'POST http://h/p HTTP/1.1\r\nHost: h\r\nContent-Length: 3\r\n')):
+        for ai, av in enumerate((None, b'Basic dTpw', b'Basic eDp5', b'basic dTpw', b'Bearer abc', b'Digest username="u"', b'Basic',
+                                 b'', b'Basic dTpw extra', b'Basic  dTpw', b'Negotiate', b'Basic \xff\xfe')):
+            data = line + (b'' if av is None else b'Proxy-Authorization: ' + av + CRLF) + CRLF + (b'abc' if ri == 2 else b'')
+            out.append(('auth:%d:%d' % (ri, ai), 'auth', data, None))
     for i, v in enumerate(VALID):
         cuts = range(1, len(v)) if tier == 'thorough' else sorted(set([1, 3, 4, 10, len(v) // 2, len(v) - 3, len(v) - 1]))
         for k in cuts:
@@ -79,6 +86,7 @@ def configs():
     return [
         ('proxy', ['--threadless'], {}),
         ('proxy+web', ['--threadless', '--enable-web-server'], {'plugins': [plugins.web_stamp()]}),
+        ('proxy+auth', ['--threadless', '--basic-auth', 'u:p'], {}),
     ]
 
 
@@ -91,6 +99,10 @@ class Lazy:
         self.index = []
         for ci in range(len(self.cfg)):
             for ii, (label, cls, data, seq) in enumerate(self.ins):
+                if self.cfg[ci][0] == 'proxy+auth' and cls not in ('auth', 'truncation', 'framing'):
+                    continue        # the authenticating configuration: auth-shaped, truncated and damaged-framing inputs
+                if self.cfg[ci][0] == 'proxy+auth' and cls == 'framing' and not label.startswith('framing:0:'):
+                    continue
                 for pname, _p in pack(label, data, seq):
                     self.index.append((ci, ii, pname))
         self.origins = {('10.0.0.1', 80): lambda: HttpOrigin([], respond=lambda c, k, r: [ORIGIN_RESP]),
@@ -304,7 +316,7 @@ def _run(tier, scns):
                             flagsets=[(fa, fo) for _n, fa, fo in configs()],
                             rule='part 1: every token sequence of <= L tokens (L=3 quick, 4 thorough) + structured '
                                  'request-shaped sequences + damaged / conflicting framing (1-2 framing headers x 13 body shapes) + truncations/concatenations of valid requests, each under '
-                                 'packings {whole, per token, per byte} x {proxy, proxy+web}, one execution of the real '
+                                 'packings {whole, per token, per byte} x {proxy, proxy+web, proxy with --basic-auth}, one execution of the real '
                                  'executor each; part 2: every generated response over the argument grid, h11 as judge')
     finally:
         common.Report.finish = orig_finish
